@@ -30,53 +30,9 @@ def run(ctx, report: Report) -> None:
     imod = src.mod('__init__')
 
     # ---- R1 ----------------------------------------------------------------------------------------------
-    r1 = report.rule('C03-R1', 'module-level wrappers forward every argument', floor=6)
-    for name, (target, has_limit) in WRAPPERS.items():
-        fn = imod.functions.get(name)
-        if fn is None:
-            raise AnalysisError(f'soupsieve.{name} not found (anchor vanished)')
-        params = [a.arg for a in fn.args.args] + [a.arg for a in fn.args.kwonlyargs]
-        kwargs = fn.args.kwarg.arg if fn.args.kwarg else None
-        outer = None
-        for n in walk_no_nested(fn):
-            if isinstance(n, ast.Call) and isinstance(n.func, ast.Attribute) and isinstance(n.func.value, ast.Call) \
-                    and call_name(n.func.value) == 'compile':
-                outer = n
-        problems = []
-        if outer is None:
-            problems.append('does not call compile(...).<method>(...)')
-        else:
-            inner = outer.func.value
-            if outer.func.attr != name:
-                problems.append(f'calls .{outer.func.attr}() instead of .{name}()')
-            # compile(pattern, namespaces, flags, *, custom, **kwargs)
-            slots = {'pattern': None, 'namespaces': None, 'flags': None, 'custom': None}
-            order = ['pattern', 'namespaces', 'flags']
-            for i, a in enumerate(inner.args):
-                if i < 3:
-                    slots[order[i]] = unparse(a)
-            star = None
-            for kw in inner.keywords:
-                if kw.arg is None:
-                    star = unparse(kw.value)
-                elif kw.arg in slots:
-                    slots[kw.arg] = unparse(kw.value)
-            want = {'pattern': params[0], 'namespaces': 'namespaces', 'flags': 'flags', 'custom': 'custom'}
-            for slot, exp in want.items():
-                if exp in params or slot == 'pattern':
-                    if slots[slot] != exp:
-                        problems.append(f'compile() receives {slot}={slots[slot]} instead of {exp}')
-            if kwargs and star != kwargs:
-                problems.append(f'**{kwargs} is not forwarded to compile()')
-            margs = [unparse(a) for a in outer.args] + [f'{k.arg}={unparse(k.value)}' for k in outer.keywords]
-            exp_args = [params[1]] + (['limit'] if has_limit else [])
-            norm = [a.split('=')[-1] for a in margs]
-            if norm != exp_args:
-                problems.append(f'.{name}() receives ({", ".join(margs)}) instead of ({", ".join(exp_args)})')
-        r1.instance({'wrapper': name, 'parameters': params, 'problems': problems}, key=name)
-        r1.obligation(not problems)
-        for p in problems:
-            r1.violation(f'__init__.{name} {p}', imod.where(fn), f'soupsieve.{name}(): {p}')
+    r1 = report.rule('C03-R1', 'module-level wrappers forward every argument (partial evaluation with a recording compile())', floor=6)
+    from .sem import wrappers_table
+    wrappers_table(ctx, r1)
 
     # ---- R2 ----------------------------------------------------------------------------------------------
     r2 = report.rule('C03-R2', 'one decision procedure behind every entry point', floor=5)
